@@ -7,6 +7,7 @@ initialised / user-PIN-initialised flags, which PINs log in, the set of objects 
 state of held sessions, exactly one uninitialised slot) is compared with the per-token model - so anything an action on
 T changes on another token is seen - and after a restart each token must sit on the same slot as after any earlier restart.
 """
+import os
 import hashlib, os, subprocess, time
 from p11mc import consts as C
 from p11mc.core import CheckBase, Explorer, Violation, confirm_violations
@@ -83,8 +84,25 @@ class C14(CheckBase):
                 acts.append(("closeall", t))
         if self.third and not m.tok["C"].exists:
             acts.append(("init-free",))
+            if self.util:
+                acts.append(("util-init-free",))
+        if self.util:
+            for t in live:
+                acts.append(("util-delete", t))
         acts.append(("restart",))
         return acts
+
+    def run_util(self, ctx, args):
+        """softhsm2-util of the same build on the shell's current token directory, while the library instance in the shell is finalised"""
+        import subprocess
+        from p11mc import p11 as P
+        bdir = os.path.join(os.environ.get("VERIF_BUILD", os.path.join(P.VERIF, "build")), ctx.variant)
+        e = dict(os.environ)
+        e["SOFTHSM2_CONF"] = "softhsm2.conf"
+        e["ASAN_OPTIONS"] = "detect_leaks=0:abort_on_error=0"
+        r = subprocess.run([os.path.join(bdir, "softhsm2-util"), "--module", os.path.join(bdir, "libsofthsm2.so")] + args, cwd=ctx.sh.pwd(), env=e,
+                           stdout=subprocess.PIPE, stderr=subprocess.STDOUT, timeout=60)
+        return r.returncode, r.stdout.decode("latin1")[-600:]
 
     # ---- observation of one token (in a throw-away snapshot)
     def observe(self, ctx, m, t):
@@ -291,10 +309,26 @@ class C14(CheckBase):
             m.slot["C"] = sm["free"]
             ck.serial = p.GetTokenInfo(sm["free"])["serial"]
             ctx.count("init_free_ok")
-        elif k == "restart":
+        elif k in ("restart", "util-init-free", "util-delete"):
             W.ok(p.Finalize(), "final")
+            if k == "util-init-free":
+                rc, outp = self.run_util(ctx, ["--init-token", "--free", "--label", "C", "--so-pin", SO["C"][0].decode(), "--pin", USER["C"][0].decode()])
+                if rc != 0:
+                    raise Violation("C14|util-init-free|softhsm2-util-failed", {"rc": rc, "output": outp})
+                ck = m.tok["C"]
+                ck.exists, ck.so, ck.user, ck.objs, ck.restart_slot, ck.serial = True, 0, 0, {}, None, None
+                ctx.count("util_init_ok")
+            elif k == "util-delete":
+                rc, outp = self.run_util(ctx, ["--delete-token", "--token", t])
+                if rc != 0:
+                    raise Violation("C14|util-delete|softhsm2-util-failed", {"rc": rc, "output": outp, "token": t})
+                tk.exists, tk.objs, tk.restart_slot, tk.held, tk.serial = False, {}, None, 0, None
+                ctx.count("util_delete_ok")
             W.ok(p.Initialize(), "init")
             sm = W.slot_map(p)
+            for tt in ("A", "B", "C"):
+                if not m.tok[tt].exists and tt in sm:
+                    raise Violation("C14|%s|deleted-token-found-again" % k, {"token": tt, "slots": sm})
             for tt in ("A", "B", "C"):
                 x = m.tok[tt]
                 if not x.exists:
@@ -306,6 +340,8 @@ class C14(CheckBase):
                 x.restart_slot = sm[tt]
                 m.slot[tt] = sm[tt]
                 x.held = 0
+                if x.serial is None:
+                    x.serial = p.GetTokenInfo(sm[tt])["serial"]
             m.held = []
             ctx.count("restart_ok")
         else:
@@ -347,20 +383,33 @@ def main(tier):
     variant = "ossl-asan" if quick else "ossl-plain"
     deadline = time.time() + (170 if quick else 1700)
     depth = 4 if quick else 5
-    ex = Explorer(C14(), variant=variant, deadline=deadline)
+    # quick: the library-only alphabet to depth 4 and, separately, the alphabet with the softhsm2-util actions to depth 3; thorough: everything to depth 5
+    util_cov = None
+    if quick:
+        exu = Explorer(C14(util=True), variant=variant, deadline=deadline)
+        try:
+            fixu = exu.bfs(3)
+            confirm_violations(exu, rep)
+            util_cov = {"depth": 3, "states": exu.stats["states"], "transitions": exu.stats["transitions"], "complete": bool(fixu or exu.stats["depth_completed"] >= 3),
+                        "counters": {k: v for k, v in exu.stats["counters"].items() if k.startswith("util")}}
+        finally:
+            exu.close()
+    ex = Explorer(C14(util=not quick), variant=variant, deadline=deadline)
     try:
         fix = ex.bfs(depth)
         done = fix or ex.stats["depth_completed"] >= depth
         confirm_violations(ex, rep)
         st = ex.stats
         c = st["counters"]
+        if util_cov is not None and not (util_cov["counters"].get("util_init_ok") and util_cov["counters"].get("util_delete_ok")):
+            rep.harness_errors.append("vacuous softhsm2-util pass: %r" % util_cov)
         if not c.get("reinit_ok") or not c.get("restart_ok") or not c.get("init_free_ok"):
             rep.harness_errors.append("vacuous: %r" % c)
         rep.coverage = {"states": st["states"], "transitions": st["transitions"], "traces_validated_against_impl": st["states"],
-                        "samples": ex.samples[:4], "exhaustive": bool(done), "levels": st["levels"], "depth_bound": depth, "outcome_counters": c, "variant": variant,
+                        "samples": ex.samples[:4], "exhaustive": bool(done), "levels": st["levels"], "depth_bound": depth, "outcome_counters": c, "variant": variant, "softhsm2_util_pass": util_cov,
                         "rule": "histories up to the depth bound merged on the per-token model (exists, PIN indexes, object privacy multiset, held sessions, restarted); "
                                 "after every action every token is observed completely in a throw-away snapshot and compared with the model"}
-        rep.assumptions = ["file store in this tier; softhsm2-util actions are not part of this run", "two PIN values per user type and token; objects are AES token keys"]
+        rep.assumptions = ["file store; softhsm2-util (--init-token --free, --delete-token) of the same build runs on the directory while the library instance is finalised", "two PIN values per user type and token; objects are AES token keys"]
     finally:
         ex.close()
     return rep.finish()
